@@ -267,6 +267,12 @@ struct Dumper {
         if (l) o << ",\"l\":" << l;
         std::string f = fileName(S->getBeginLoc());
         if (!f.empty() && f != curFile) o << ",\"lf\":" << fileOf(f);
+        // canonical type of element accesses / dereferences / member reads (the other expression kinds carry it elsewhere: refs through
+        // their declaration, calls through "rt")
+        if (auto *E = dyn_cast<Expr>(S)) {
+            if ((isa<ArraySubscriptExpr>(E) || isa<UnaryOperator>(E) || isa<MemberExpr>(E) || isa<CXXOperatorCallExpr>(E)) && !E->getType().isNull() && !E->isTypeDependent())
+                o << ",\"ty\":" << typeOf(E->getType().getCanonicalType());
+        }
         // compile-time value of integral constant expressions that are not literals
         // (constexpr calls, numeric_limits members, template arguments): "cv"
         if (auto *E = dyn_cast<Expr>(S)) {
